@@ -7,6 +7,8 @@ ast.IsValidIdent); the models were validated by correspondence against exactly t
 import CueVerif.Gen.C09
 import CueVerif.Model.Quote
 import CueVerif.Model.NumLit
+import CueVerif.Model.TokenFile
+import CueVerif.Spec.Scan
 namespace CueVerif.Bridge.C09
 open CueVerif
 
@@ -61,5 +63,77 @@ theorem pin_ast_IsValidIdent : Gen.C09.pin_ast_IsValidIdent = "da53dfe8880f02f2"
 theorem pin_ast_isLetter : Gen.C09.pin_ast_isLetter = "7aecc90050bc9728" := by decide
 theorem pin_ast_isDigit : Gen.C09.pin_ast_isDigit = "da5acf79aeff31b3" := by decide
 theorem pin_literal_NumInfo_decimal : Gen.C09.pin_literal_NumInfo_decimal = "aca1b0e83663d828" := by decide
+
+/-! ### extension round (session 3): the position table of cue/token/position.go -/
+
+/-- the packing constants of `token.Pos`: the model's `relUnit = 64 = 1 << relShift`, and every
+flag bit (`relMask`, `commaBit`, `scannedBit`) lies below it, so the `rel` argument of
+`C09_pos_offset_roundtrip` (0 ≤ rel < 64) covers every `WithRel/WithComma/WithScanned` value -/
+theorem pos_packing : Gen.C09.relShift = (TokenFile.relShift : Int) ∧
+    TokenFile.relUnit = 2 ^ TokenFile.relShift ∧
+    Gen.C09.relMask + Gen.C09.commaBit + Gen.C09.scannedBit < TokenFile.relUnit := by decide
+
+/-- `AddLineInfo` has no caller in the tree (outside tests): `f.infos` is always empty, as the
+model assumes; neither have `MergeLine` and `SetLines` (tables come from `AddLine` /
+`SetLinesForContent` only) -/
+theorem no_line_infos : Gen.C09.addLineInfoCallSites = 0 ∧ Gen.C09.mergeLineCallSites = 0 ∧
+    Gen.C09.setLinesCallSites = 0 := by decide
+
+theorem pin_token_NewFile : Gen.C09.pin_token_NewFile = "7b716289b579b46f" := by decide
+theorem pin_token_File_fixOffset : Gen.C09.pin_token_File_fixOffset = "35cfec5838f6f825" := by decide
+theorem pin_token_File_AddLine : Gen.C09.pin_token_File_AddLine = "22bba488d464a0c8" := by decide
+theorem pin_token_File_SetLines : Gen.C09.pin_token_File_SetLines = "3f2049ee756080b5" := by decide
+theorem pin_token_File_SetLinesForContent : Gen.C09.pin_token_File_SetLinesForContent = "896619cb77799e8f" := by decide
+theorem pin_token_File_Pos : Gen.C09.pin_token_File_Pos = "84b33d31cc204b28" := by decide
+theorem pin_token_File_Offset : Gen.C09.pin_token_File_Offset = "d7288801105deb49" := by decide
+theorem pin_token_File_unpack : Gen.C09.pin_token_File_unpack = "9e89eb838fdaf524" := by decide
+theorem pin_token_File_position : Gen.C09.pin_token_File_position = "c23b3d59c22388ac" := by decide
+theorem pin_token_File_PositionFor : Gen.C09.pin_token_File_PositionFor = "1907fe29c4a320b8" := by decide
+theorem pin_token_File_Position : Gen.C09.pin_token_File_Position = "745f22f2d221733d" := by decide
+theorem pin_token_searchInts : Gen.C09.pin_token_searchInts = "717df8d5211cdc60" := by decide
+theorem pin_token_toPos : Gen.C09.pin_token_toPos = "94a6f4cf62ac3973" := by decide
+theorem pin_token_Pos_index : Gen.C09.pin_token_Pos_index = "cf850c1e8cdb09b8" := by decide
+theorem pin_token_Pos_Add : Gen.C09.pin_token_Pos_Add = "9cafc369f1cc8371" := by decide
+theorem pin_token_Pos_Position : Gen.C09.pin_token_Pos_Position = "35970aed643f09bf" := by decide
+theorem pin_token_Pos_Offset : Gen.C09.pin_token_Pos_Offset = "4eaca812afb1e38f" := by decide
+theorem pin_token_Pos_HasAbsPos : Gen.C09.pin_token_Pos_HasAbsPos = "25edd0214c79bea2" := by decide
+theorem pin_token_Pos_IsValid : Gen.C09.pin_token_Pos_IsValid = "bde37ca2594d007d" := by decide
+theorem pin_token_File_Lines : Gen.C09.pin_token_File_Lines = "e0a9bac230361178" := by decide
+theorem pin_token_File_LineCount : Gen.C09.pin_token_File_LineCount = "1833ee8d55e4c23e" := by decide
+
+/-! ### extension round (session 3): the scanner as a total function (Model/Scan.lean) -/
+
+/-- the keyword table `token.Lookup` uses (regenerated from the constants between
+`keywordBeg` and `keywordEnd`) is the model's -/
+theorem scan_keywords : Gen.C09.keywords.map (fun s => s.toList.map Char.toNat) = Scan.keywords := by decide
+
+/-- doc/ref/spec.md §Commas, regenerated and translated into token kinds by the extractor,
+is the list `Scan.specCommaKinds` that `C09_comma_rule_*` speak about -/
+theorem scan_spec_commas : Gen.C09.specCommaKinds = Scan.specCommaKinds.map Scan.kindName := by decide
+
+theorem scan_spec_comma_text : Gen.C09.specCommaBullets =
+    ["an identifier, keyword, or bottom", "a number or string literal, including an interpolation",
+     "one of the characters `)`, `]`, `}`, or `?`", "an ellipsis `...`"] := by decide
+
+theorem pin_scanner_Scanner_Scan : Gen.C09.pin_scanner_Scanner_Scan = "e9b435645f244f67" := by decide
+theorem pin_scanner_Scanner_Init : Gen.C09.pin_scanner_Scanner_Init = "8a1daa0240f564d3" := by decide
+theorem pin_scanner_Scanner_skipWhitespace : Gen.C09.pin_scanner_Scanner_skipWhitespace = "8ed44dd8247d3a8a" := by decide
+theorem pin_scanner_Scanner_scanComment : Gen.C09.pin_scanner_Scanner_scanComment = "c15cdd15739ba840" := by decide
+theorem pin_scanner_Scanner_scanString : Gen.C09.pin_scanner_Scanner_scanString = "983ef5dcdf6576cb" := by decide
+theorem pin_scanner_Scanner_scanEscape : Gen.C09.pin_scanner_Scanner_scanEscape = "797f428a147aef6f" := by decide
+theorem pin_scanner_Scanner_consumeQuotes : Gen.C09.pin_scanner_Scanner_consumeQuotes = "90a17b53fb88b472" := by decide
+theorem pin_scanner_Scanner_consumeStringClose : Gen.C09.pin_scanner_Scanner_consumeStringClose = "99ab59f3f07d775f" := by decide
+theorem pin_scanner_Scanner_scanHashes : Gen.C09.pin_scanner_Scanner_scanHashes = "b6afb35f43d723c9" := by decide
+theorem pin_scanner_stripCR : Gen.C09.pin_scanner_stripCR = "01f48a82622ecdaa" := by decide
+theorem pin_scanner_Scanner_scanAttribute : Gen.C09.pin_scanner_Scanner_scanAttribute = "a84ad2fdb4420f7d" := by decide
+theorem pin_scanner_Scanner_scanAttributeTokens : Gen.C09.pin_scanner_Scanner_scanAttributeTokens = "c26ed2004ce3c642" := by decide
+theorem pin_scanner_Scanner_recoverParen : Gen.C09.pin_scanner_Scanner_recoverParen = "049341926de4efdc" := by decide
+theorem pin_scanner_Scanner_switch2 : Gen.C09.pin_scanner_Scanner_switch2 = "4c47f82ae3efbba1" := by decide
+theorem pin_scanner_Scanner_popInterpolation : Gen.C09.pin_scanner_Scanner_popInterpolation = "866cdcaf74bd11eb" := by decide
+theorem pin_scanner_Scanner_ResumeInterpolation : Gen.C09.pin_scanner_Scanner_ResumeInterpolation = "3aed8293d9693a6e" := by decide
+theorem pin_scanner_Scanner_Offset : Gen.C09.pin_scanner_Scanner_Offset = "3552722d27f70f1e" := by decide
+theorem pin_scanner_Scanner_errf : Gen.C09.pin_scanner_Scanner_errf = "cff7056d7ce6f951" := by decide
+theorem pin_token_Lookup : Gen.C09.pin_token_Lookup = "cbc48ba334be51ed" := by decide
+theorem pin_parser_parser_parseInterpolation : Gen.C09.pin_parser_parser_parseInterpolation = "03e6f1e1327ccc2d" := by decide
 
 end CueVerif.Bridge.C09
